@@ -302,6 +302,8 @@ pub fn corpus_c09(tier: Tier, seed: u64) -> Vec<Decl> {
     p.kinds = [3, 6, 4, 2, 1, 1, 1];
     p.shapes = [5, 3, 2, 2];
     p.max_fields = 3;
+    // fields without any access specifier obey the same rules as accessible ones
+    p.access = AccessMode::MixedWithNone;
     for w in sample_choices(seed, 9, n, 320) {
         bases.push(build_layout(&p, &w));
     }
@@ -337,6 +339,12 @@ pub fn corpus_c09(tier: Tier, seed: u64) -> Vec<Decl> {
         // perturb one field (chosen by the choice sequence), all applicable single steps
         let mut src = Src::new(&words[bi % words.len()]);
         let fi = src.below(l.fields.len() as u32) as usize;
+        // every third seed layout: the perturbed field carries no access specifier (or is read-only)
+        let mut l = l.clone();
+        if bi % 3 == 1 {
+            l.fields[fi].access = if bi % 2 == 0 { Access::None } else { Access::R };
+        }
+        let l = &l;
         let mut ps = perturb(l, fi);
         // quick tier: a subset of the perturbations of each layout
         let keep = tier.pick(6usize, 64usize);
@@ -346,10 +354,49 @@ pub fn corpus_c09(tier: Tier, seed: u64) -> Vec<Decl> {
         }
         for (name, nl) in ps {
             let v = layout_verdict(&nl);
-            if matches!(v, Verdict::Unspecified(_)) {
+            // declarations the statement leaves open are kept too: whatever the rule says about them, it says
+            // the same to a macro built in either profile
+            out.push(Decl { layout: nl, verdict: v, origin: name, boundary: true, field: Some(fi) });
+        }
+    }
+    // open declarations, systematically: lists naming a bit twice whose lengths add up to the type width (the
+    // macro's reading), below / at / above the width of the base
+    for b in [8u32, 16, 32, 64, 128, 12, 24, 40, 100] {
+        let mk = |rs: Vec<(u32, u32)>, arr: Option<ArrayDecl>| {
+            let w: u32 = rs.iter().map(|(lo, hi)| hi - lo + 1).sum();
+            Field {
+                name: "dup".into(),
+                kw_bit: false,
+                list: true,
+                ranges: rs.iter().map(|(lo, hi)| Rng { lo: *lo, hi: *hi, short: false }).collect(),
+                array: arr,
+                ty: uty(w),
+                access: Access::RW,
+                arg_order: 0,
+                opt_path: 0,
+                huge: None,
+                zero_pad: false,
+            }
+        };
+        let h = b / 2;
+        let mut fs = vec![
+            mk(vec![(0, h - 1), (0, h - 1)], None),
+            mk(vec![(0, b - 1 - h / 2), (h / 2, b - 1)], None),
+            mk(vec![(0, 3), (2, 5)], None),
+            mk(vec![(b - 4, b - 1), (b - 2, b - 1)], None),
+            mk(vec![(0, 1), (1, 2)], Some(ArrayDecl { count: 2, stride: Some(4), colon: false })),
+        ];
+        if b <= 64 {
+            fs.push(mk(vec![(0, b - 1), (0, b - 1)], None));
+            fs.push(mk(vec![(0, b - 1), (h, b - 1)], None));
+        }
+        for f in fs {
+            if f.width() > 128 {
                 continue;
             }
-            out.push(Decl { layout: nl, verdict: v, origin: name, boundary: true, field: Some(fi) });
+            let l = lay(b, vec![f]);
+            let v = layout_verdict(&l);
+            out.push(Decl { layout: l, verdict: v, origin: "open-duplicate-bits".into(), boundary: true, field: Some(0) });
         }
     }
     // de-duplicate by source text
@@ -379,11 +426,48 @@ pub fn run(rc: &RunCtx) -> Outcome {
     }
     let mut confirmed_per_sig: BTreeMap<String, u32> = BTreeMap::new();
     let mut unconfirmed_duplicates = 0u64;
+    let mut open_agree = 0u64;
     for (pi, mp) in profiles.iter().enumerate() {
         for (i, d) in decls.iter().enumerate() {
             evaluations += 1;
             let errs = observed[pi].get(&i).cloned().unwrap_or_default();
             let accepted = errs.is_empty();
+            if matches!(d.verdict, Verdict::Unspecified(_)) {
+                // open declaration: the only expectation is that both builds of the macro agree
+                if pi == 0 {
+                    continue;
+                }
+                let accepted_dev = observed[0].get(&i).map(|e| e.is_empty()).unwrap_or(true);
+                if accepted_dev == accepted {
+                    open_agree += 1;
+                    continue;
+                }
+                let sig = format!("profile-dependent-acceptance/{}/{}", base_class(d.layout.base_bits), d.origin);
+                let n = confirmed_per_sig.entry(sig.clone()).or_insert(0);
+                if *n >= 2 {
+                    unconfirmed_duplicates += 1;
+                    continue;
+                }
+                disagreements_checked += 1;
+                let iso_dev = check_isolated(rc, &items[i].1, None, "dev");
+                let iso_rel = check_isolated(rc, &items[i].1, None, "release");
+                if iso_dev.is_empty() == iso_rel.is_empty() {
+                    continue;
+                }
+                *n += 1;
+                violations.push(Violation {
+                    sig,
+                    summary: format!(
+                        "C09: acceptance depends on the profile the macro is built in: dev {}, release {}: {}\n{}",
+                        if iso_dev.is_empty() { "compiles" } else { "is rejected" },
+                        if iso_rel.is_empty() { "compiles" } else { "is rejected" },
+                        iso_dev.first().or(iso_rel.first()).cloned().unwrap_or_default(),
+                        items[i].1
+                    ),
+                    replay: json!({"kind": "profile-consistency", "source": items[i].1, "layout": d.layout, "verdict": format!("{:?}", d.verdict), "origin": d.origin, "observed_errors_dev": iso_dev, "observed_errors_release": iso_rel}),
+                });
+                continue;
+            }
             let want_accept = d.verdict.is_valid();
             if accepted == want_accept {
                 continue;
@@ -431,6 +515,9 @@ pub fn run(rc: &RunCtx) -> Outcome {
             if done.len() >= 3 || !done.insert(v.sig.clone()) {
                 continue;
             }
+            if v.replay["kind"] == "profile-consistency" {
+                continue;
+            }
             let layout: Layout = match serde_json::from_value(v.replay["layout"].clone()) {
                 Ok(l) => l,
                 Err(_) => continue,
@@ -467,13 +554,15 @@ pub fn run(rc: &RunCtx) -> Outcome {
         "programs": decls.len(),
         "evaluations": evaluations,
         "distinct_nontrivial": boundary,
-        "rule": "cases = declarations (rule-valid ones from the generator and single-step perturbations of one field: reversed range, type/range one bit off, bool over two bits, K -> 1/0, stride below width, stride 0, stride removed from a list array, reversed ranges hidden in a list (empty, or compensated by a wider range), literals near u64::MAX that make the macro's own arithmetic wrap, field moved so that its top bit is base width / storage headroom / storage width / beyond, one array element too many, and the same on a base one bit wider), each checked with the macro built in the dev and in the release profile. Expected verdict recomputed from the final declaration by the rule transcription (R1-R4); unspecified declarations dropped. Non-trivial: at distance <= 1 from the validity boundary (a perturbed declaration, or a valid one touching a limit: top bit, stride = width, K = 2); distinct by declaration text",
+        "rule": "cases = declarations (rule-valid ones from the generator and single-step perturbations of one field: reversed range, type/range one bit off, bool over two bits, K -> 1/0, stride below width, stride 0, stride removed from a list array, reversed ranges hidden in a list (empty, or compensated by a wider range), literals near u64::MAX that make the macro's own arithmetic wrap, field moved so that its top bit is base width / storage headroom / storage width / beyond, one array element too many, and the same on a base one bit wider), each checked with the macro built in the dev and in the release profile. Expected verdict recomputed from the final declaration by the rule transcription (R1-R4); for declarations the statement leaves open (a list naming a bit twice, stride 0 on a list array, ...) the only expectation is the same outcome from both builds of the macro. Non-trivial: at distance <= 1 from the validity boundary (a perturbed declaration, or a valid one touching a limit: top bit, stride = width, K = 2); distinct by declaration text",
         "samples": samples,
         "exhaustive": false,
         "disagreements_checked": disagreements_checked,
         "further_disagreements_with_an_already_confirmed_signature": unconfirmed_duplicates,
         "expected_valid": decls.iter().filter(|d| d.verdict.is_valid()).count(),
         "expected_invalid": decls.iter().filter(|d| d.verdict.is_invalid()).count(),
+        "open_declarations": decls.iter().filter(|d| matches!(d.verdict, Verdict::Unspecified(_))).count(),
+        "open_declarations_with_the_same_outcome_in_both_macro_profiles": open_agree,
         "by_origin": per_origin,
         "by_expected_rule": per_class,
         "macro_profiles": profiles,
@@ -483,7 +572,7 @@ pub fn run(rc: &RunCtx) -> Outcome {
         coverage,
         assumptions: vec![
             "rustc's JSON diagnostics are attributed to declarations by file; a disagreement is re-confirmed in a single-declaration crate before it is reported".into(),
-            "the rule transcription model::rules::layout_verdict is the oracle; declarations the statement leaves open (a list naming a bit twice, stride 0 on a list array, Option<> not matching the enum's exhaustiveness, undocumented spellings such as bit(a..=b)) are never generated".into(),
+            "the rule transcription model::rules::layout_verdict is the oracle; declarations the statement leaves open (a list naming a bit twice, stride 0 on a list array, Option<> not matching the enum's exhaustiveness, undocumented spellings such as bit(a..=b)) are only compared between the two builds of the macro".into(),
         ],
     }
 }
